@@ -1,4 +1,4 @@
-import ClusterVerif.Lemmas.C13
+import ClusterVerif.Lemmas.C13Log
 /-!
 C13 — property theorems about the bookkeeping model (Model/C13.lean) of the adders' DAG
 services. They hold for every block stream, every allocation script, every script of
@@ -190,5 +190,11 @@ theorem shard_allocations (c : Cfg) (stream : List Blk) (fin : Option Nat) (hwf 
   obtain ⟨_, h⟩ := shOut c stream fin hwf hs hstop
   intro r hr
   exact ⟨(h.shards r hr).1.allocs, (nodupNat_iff _).mp (h.shards r hr).1.nodup⟩
+
+/-- The accepted pins that the Spec's decoder (`Obs.view`, `pinsOkOf`) reads off the model's event log are
+    the accepted pins the theorems above speak about: for the pin clauses the decoder and the model's
+    structural view agree by proof (for the shard contents and destinations they are compared per case). -/
+theorem decoded_pins (c : Cfg) (stream : List Blk) (fin : Option Nat) :
+    pinsOkOf (run c stream fin).log = acceptedPins (run c stream fin).pins := run_log_pins c stream fin
 
 end CV.C13
